@@ -17,6 +17,12 @@ def within (R : Int) (plan : List IntOrPct) (e k : IntOrPct) : Bool :=
   decide (exposure k R ≤ calcBatchReplicas R e) ||
   (plan.any isStr && decide (100 * (exposure k R - calcBatchReplicas R e) < max R 1))
 
+/-- what the validating webhook guarantees about a plan (for the workload's size): no entry asks for fewer pods than
+    an earlier one -/
+def planMono (R : Int) : List IntOrPct → Bool
+  | a :: b :: rest => decide (calcBatchReplicas R a ≤ calcBatchReplicas R b) && planMono R (b :: rest)
+  | _ => true
+
 /-- the user-owned configuration of the rollouts the closed-loop theorems speak about: a live, enabled, un-paused
     canary rollout in partition style over a CloneSet, with a non-empty plan, carrying the controller's finalizer -/
 def roOK (s : CS) : Bool :=
@@ -52,7 +58,7 @@ def linkOK (ro : Rollout) (s : Sub) (b : CBr) : Bool :=
 def subOK (ro : Rollout) (s : Sub) (w : CWl) : Bool :=
   let n : Int := ro.steps.length
   decide (1 ≤ s.curIdx ∧ s.curIdx ≤ n) && decide (s.nextIdx = nextBatchIndex n s.curIdx) && s.lastUpdate != .none &&
-  s.hash == .same && s.canaryRev == w.updateRevision
+  s.hash == .same && s.canaryRev == w.updateRevision && s.finStep == .empty
 
 /-- the invariant of a forward rollout (labels ro / br / env / approve / tick / crash, and a new release while idle) -/
 def fwdInv (s : CS) : Bool :=
@@ -60,7 +66,7 @@ def fwdInv (s : CS) : Bool :=
   (match s.wl with
    | none => false
    | some w =>
-     wlOK w && (match s.br with | some b => brOK b | none => true) &&
+     wlOK w && planMono w.replicas (planOf s.ro) && (match s.br with | some b => brOK b | none => true) &&
      (match s.ro.phase, s.ro.reason with
       | .healthy, _ => s.br.isNone && (!w.inProgressAnno || held w)
       | .progressing, .initializing => s.br.isNone && held w
